@@ -5,7 +5,7 @@ V = os.path.dirname(os.path.dirname(os.path.abspath(__file__)))
 DET = json.load(open(os.path.join(V, "seeded", "detection.json"))) if os.path.exists(os.path.join(V, "seeded", "detection.json")) else {}
 for d in sorted(os.listdir(os.path.join(V, "seeded"))):
     p = os.path.join(V, "seeded", d)
-    if not os.path.isdir(p):
+    if not os.path.isdir(p) or not os.path.exists(os.path.join(p, "patch.diff")):
         continue
     notes = open(os.path.join(p, "notes.md")).read() if os.path.exists(os.path.join(p, "notes.md")) else ""
     conf = open(os.path.join(p, "confirm.log")).read() if os.path.exists(os.path.join(p, "confirm.log")) else ""
